@@ -3,7 +3,7 @@
 From Coq Require Import List ZArith NArith Bool Arith Lia.
 From Coq.Strings Require Import Byte.
 Import ListNotations.
-From BWLexer Require Import Utf8 Unicode Lexer LexerProofs CaseProofs.
+From BWLexer Require Import Utf8 Unicode Lexer LexerProofs Utf8Proofs CaseProofs.
 From BWLexer.Gen Require Import LexTablesGen.
 
 Lemma more_consts : r_colon = 58%Z /\ r_lt = 60%Z /\ r_gt = 62%Z /\ r_comma = 44%Z /\ r_rightSquarePar = 93%Z.
@@ -41,21 +41,16 @@ Proof.
   { pose proof literal_types_lower_or_digit as K. rewrite forallb_forall in K. exact (K _ Hty). }
   pose proof (case_variant_refl ty) as Hv.
   destruct (lod_of_variant U HU ty ty Hlt Hv) as [L1 _].
-  unfold lex_with, lex_runes.
-  replace inp with ((x22 :: body ++ s_literalType ++ ty) ++ []) by apply app_nil_r.
-  rewrite decode_all_ascii.
-  2:{ constructor; [reflexivity|]. apply Forall_app. split.
-      - eapply Forall_impl; [|exact Hb]. cbn. tauto.
-      - apply Forall_app. split; [repeat constructor|]. eapply Forall_impl; [|exact L1]. cbn. intros a [H _]. lia. }
-  assert (Er : ascii_runes (x22 :: body ++ s_literalType ++ ty) ++ decode_all [] = literal_runes body ty []).
-  { unfold literal_runes. change (x22 :: body ++ s_literalType ++ ty) with ((x22 :: body) ++ s_literalType ++ ty).
-    rewrite !ascii_runes_app, <- !app_assoc. reflexivity. }
-  rewrite Er. set (rs := literal_runes body ty []).
-  destruct (fuel_split rs 3 ltac:(lia)) as [f Ef]; [subst rs; unfold literal_runes; cbn; congruence|].
+  unfold lex_with, lex_runes. subst inp.
+  replace (x22 :: body ++ s_literalType ++ ty) with (x22 :: body ++ s_literalType ++ ty ++ []) by (now rewrite app_nil_r).
+  rewrite decode_literal_bytes by (eapply Forall_impl; [|exact L1]; cbn; intros a [H _]; lia).
+  cbn [decode_all]. set (rs := literal_runes (decode_all body) ty []).
+  destruct (fuel_split rs 3 ltac:(lia)) as [f Ef]; [subst rs; unfold literal_runes; congruence|].
   rewrite Ef. cbn [plus].
-  destruct (literal_steps U HU body ty ty [] (init_lx rs) Hb Hty Hv I eq_refl) as (S1 & S2 & S3).
+  destruct (literal_steps U HU (decode_all body) ty ty [] (init_lx rs) (plain_body_runes body Hb) Hty Hv I eq_refl) as (S1 & S2 & S3).
   rewrite run_S, S1, run_S, S2, run_S, S3. cbn [init_lx start pos]. rewrite run_at_end. cbn [app].
-  rewrite ?app_nil_r. cbn [length plus]. rewrite !app_length.
+  rewrite (wsum_decode_all (length body)) by apply le_n.
+  cbn [length plus]. rewrite !app_length. cbn [length]. rewrite Nat.add_0_r.
   rewrite Nat.add_assoc. reflexivity.
 Qed.
 
@@ -114,43 +109,69 @@ Proof.
 Qed.
 
 (* ---------------------------------------------------------------- node  /type<id> *)
-(* ASCII without '<' '>' and backslash *)
-Definition node_byte (b : byte) : Prop := (bz b < 128)%Z /\ bz b <> 60%Z /\ bz b <> 62%Z /\ bz b <> 92%Z.
+(* any bytes (valid UTF-8 or not) except '<' '>' and backslash *)
+Definition node_byte (b : byte) : Prop := bz b <> 60%Z /\ bz b <> 62%Z /\ bz b <> 92%Z.
+Definition node_rune (p : rw) : Prop := fst p <> 60%Z /\ fst p <> 62%Z /\ fst p <> 92%Z.
 
-Lemma node_loop_plain l : forall x tl ltid ps, Forall node_byte x ->
-  node_loop l ltid ps (ascii_runes x ++ tl) = node_loop l ltid (ps + length x) tl.
+Lemma avoid3 (P : byte -> Prop) c1 c2 c3 x :
+  (0 <= c1 < 128)%Z -> (0 <= c2 < 128)%Z -> (0 <= c3 < 128)%Z ->
+  Forall (fun b => bz b <> c1 /\ bz b <> c2 /\ bz b <> c3) x ->
+  Forall (fun p : rw => fst p <> c1 /\ fst p <> c2 /\ fst p <> c3) (decode_all x).
+Proof.
+  intros H1 H2 H3 H.
+  assert (A : Forall (fun p : rw => fst p <> c1) (decode_all x))
+    by (apply (decode_avoid c1 H1 (length x)); [apply le_n|eapply Forall_impl; [|exact H]; cbn; tauto]).
+  assert (B : Forall (fun p : rw => fst p <> c2) (decode_all x))
+    by (apply (decode_avoid c2 H2 (length x)); [apply le_n|eapply Forall_impl; [|exact H]; cbn; tauto]).
+  assert (C : Forall (fun p : rw => fst p <> c3) (decode_all x))
+    by (apply (decode_avoid c3 H3 (length x)); [apply le_n|eapply Forall_impl; [|exact H]; cbn; tauto]).
+  induction (decode_all x) as [|p r IH]; [constructor|]. inversion A; inversion B; inversion C; subst. constructor; auto.
+Qed.
+
+Lemma node_bytes_runes x : Forall node_byte x -> Forall node_rune (decode_all x).
+Proof. intro H. apply (avoid3 (fun _ => True) 60 62 92); try lia. exact H. Qed.
+
+Lemma node_loop_plain l : forall x tl0 ltid ps, Forall node_rune x ->
+  node_loop l ltid ps (x ++ tl0) = node_loop l ltid (ps + wsum x) tl0.
 Proof.
   destruct rune_consts as (Q & B & _). destruct more_consts as (_ & Lt & Gt & _).
-  induction x as [|a x IH]; intros tl ltid ps Hx; cbn [ascii_runes map app length]; [now rewrite Nat.add_0_r|].
-  inversion Hx as [|? ? (R & N1 & N2 & N3) Hx']; subst. cbn [node_loop]. rewrite B, Lt, Gt.
-  destruct (Z.eqb_spec (bz a) 92); [congruence|]. destruct (Z.eqb_spec (bz a) 60); [congruence|].
-  destruct (Z.eqb_spec (bz a) 62); [congruence|].
-  fold (ascii_runes x). rewrite IH by assumption. f_equal. lia.
+  induction x as [|[r w] x IH]; intros tl0 ltid ps Hx; cbn [app wsum]; [now rewrite Nat.add_0_r|].
+  inversion Hx as [|? ? (N1 & N2 & N3) Hx']; subst. cbn [fst] in *. cbn [node_loop]. rewrite B, Lt, Gt.
+  destruct (Z.eqb_spec r 92); [congruence|]. destruct (Z.eqb_spec r 60); [congruence|].
+  destruct (Z.eqb_spec r 62); [congruence|].
+  rewrite IH by assumption. f_equal. lia.
 Qed.
+
+(* decoding in front of / behind ASCII delimiters *)
+Lemma decode_cons_ascii a s : (bz a < 128)%Z -> decode_all (a :: s) = (bz a, 1) :: decode_all s.
+Proof. intro H. change (a :: s) with ([a] ++ s). rewrite decode_all_ascii by (repeat constructor; exact H). reflexivity. Qed.
+
+Lemma decode_mid x a s : (bz a < 128)%Z -> decode_all (x ++ a :: s) = decode_all x ++ (bz a, 1) :: decode_all s.
+Proof. intro H. rewrite (decode_all_split (length x) x (le_n _) a s H). now rewrite decode_cons_ascii. Qed.
 
 Theorem printed_node : forall ty id, Forall node_byte ty -> Forall node_byte id ->
   let inp := x2f :: ty ++ x3c :: id ++ [x3e] in
   lex_with U inp = ([(ItemNode, 0, length inp); (ItemEOF, length inp, length inp)], true).
 Proof.
-  intros ty id Ht Hi inp. unfold lex_with, lex_runes. subst inp.
-  set (w := x2f :: ty ++ x3c :: id ++ [x3e]).
-  replace w with (w ++ []) by apply app_nil_r.
-  rewrite decode_all_ascii.
-  2:{ subst w. constructor; [reflexivity|]. apply Forall_app. split; [eapply Forall_impl; [|exact Ht]; intros a0 [H0 _]; exact H0|].
-      constructor; [reflexivity|]. apply Forall_app. split; [eapply Forall_impl; [|exact Hi]; intros a0 [H0 _]; exact H0|repeat constructor]. }
-  cbn [decode_all app]. rewrite app_nil_r.
-  destruct (fuel_split (ascii_runes w) 2 ltac:(lia)) as [f Ef]; [subst w; cbn; congruence|]. rewrite Ef. cbn [plus].
+  intros ty id Ht Hi inp. unfold lex_with, lex_runes.
+  assert (Ed : decode_all inp = (47%Z, 1) :: decode_all ty ++ (60%Z, 1) :: decode_all id ++ [(62%Z, 1)]).
+  { subst inp. rewrite decode_cons_ascii by reflexivity. f_equal.
+    rewrite decode_mid by reflexivity. f_equal. f_equal. rewrite decode_mid by reflexivity. reflexivity. }
+  rewrite Ed. set (rs := (47%Z, 1) :: decode_all ty ++ (60%Z, 1) :: decode_all id ++ [(62%Z, 1)]).
+  destruct (fuel_split rs 2 ltac:(lia)) as [f Ef]; [subst rs; congruence|]. rewrite Ef. cbn [plus].
   destruct rune_consts as (Q & B & Bi & Sl & Un). destruct more_consts as (_ & Lt & Gt & _).
-  subst w. rewrite run_S. cbn [step init_lx ascii_runes map lex_token rest start pos last].
-  destruct (HU 47%Z ltac:(lia)) as (_ & Ed & _). change (bz x2f) with 47%Z. rewrite Ed. replace (ascii_digit 47%Z) with false by reflexivity. cbn [andb].
+  subst rs. rewrite run_S. cbn [step init_lx lex_token rest start pos last].
+  destruct (HU 47%Z ltac:(lia)) as (_ & Ed' & _). rewrite Ed'. replace (ascii_digit 47%Z) with false by reflexivity. cbn [andb].
   rewrite Bi, Sl. cbn [Z.eqb Pos.eqb].
   rewrite run_S. cbn [step]. unfold lex_node. cbn [rest pos node_loop]. rewrite B, Lt, Gt. cbn [Z.eqb Pos.eqb].
-  rewrite map_app. fold (ascii_runes ty). rewrite node_loop_plain by assumption.
-  cbn [map node_loop]. change (bz x3c) with 60%Z. rewrite B, Lt. cbn [Z.eqb Pos.eqb].
-  rewrite map_app. fold (ascii_runes id). rewrite node_loop_plain by assumption.
-  cbn [map node_loop]. change (bz x3e) with 62%Z. rewrite B, Lt, Gt. cbn [Z.eqb Pos.eqb].
-  unfold emit. cbn [start]. rewrite run_at_end. cbn [app length]. rewrite !app_length. cbn [length].
-  rewrite !app_length. cbn [length]. repeat f_equal; lia.
+  rewrite node_loop_plain by (now apply node_bytes_runes).
+  cbn [node_loop]. rewrite B, Lt. cbn [Z.eqb Pos.eqb].
+  rewrite node_loop_plain by (now apply node_bytes_runes).
+  cbn [node_loop]. rewrite B, Lt, Gt. cbn [Z.eqb Pos.eqb].
+  unfold emit. cbn [start]. rewrite run_at_end. cbn [app].
+  rewrite !(wsum_decode_all _ _ (le_n _)).
+  subst inp. cbn [length]. rewrite !app_length. cbn [length]. rewrite !app_length. cbn [length].
+  replace (0 + 1 + length ty + 1 + length id + 1) with (S (length ty + S (length id + 1))) by lia. reflexivity.
 Qed.
 
 (* ---------------------------------------------------------------- predicate  QUOTE id QUOTE @[anchor]  and bound *)
@@ -159,17 +180,20 @@ Proof. reflexivity. Qed.
 Lemma marker_is : exists m', s_literalType = x22 :: x5e :: m'.
 Proof. eexists. reflexivity. Qed.
 
-(* id: ASCII, no double quote, no backslash *)
+(* id: any bytes except the double quote and the backslash *)
 Definition pred_id_ok (id : list byte) : Prop := plain_body id.
-(* time anchor text: ASCII without double quote, ']' and ',' *)
-Definition anchor_byte (b : byte) : Prop := (bz b < 128)%Z /\ bz b <> 34%Z /\ bz b <> 93%Z /\ bz b <> 44%Z.
+(* time anchor text: any bytes except double quote, ']' and ',' *)
+Definition anchor_byte (b : byte) : Prop := bz b <> 34%Z /\ bz b <> 93%Z /\ bz b <> 44%Z.
+Definition anchor_rune (p : rw) : Prop := fst p <> 34%Z /\ fst p <> 93%Z /\ fst p <> 44%Z.
+Definition noquote_rune (p : rw) : Prop := fst p <> 34%Z.
 
-Definition noquote_byte (b : byte) : Prop := (bz b < 128)%Z /\ bz b <> 34%Z.
-Lemma anchor_noquote an : Forall anchor_byte an -> Forall noquote_byte an.
-Proof. intro H. eapply Forall_impl; [|exact H]. unfold anchor_byte, noquote_byte. tauto. Qed.
+Lemma anchor_bytes_runes x : Forall anchor_byte x -> Forall anchor_rune (decode_all x).
+Proof. intro H. apply (avoid3 (fun _ => True) 34 93 44); try lia. exact H. Qed.
+Lemma anchor_noquote an : Forall anchor_rune an -> Forall noquote_rune an.
+Proof. intro H. eapply Forall_impl; [|exact H]. unfold anchor_rune, noquote_rune. tauto. Qed.
 
-Definition pred_runes (id an : list byte) : list rw :=
-  ascii_runes (x22 :: id) ++ ascii_runes s_anchor ++ ascii_runes an ++ [(93%Z, 1)].
+Definition pred_runes (id an : list rw) : list rw :=
+  (34%Z, 1) :: id ++ ascii_runes s_anchor ++ an ++ [(93%Z, 1)].
 
 Lemma lex_token_quote l rs : rest l = (34%Z, 1) :: rs -> step U SToken l = ([], Some SPredOrLit, l).
 Proof.
@@ -198,52 +222,52 @@ Proof. induction x as [|a x IH]; intros y q H; destruct q; cbn in *; try reflexi
 Lemma skipn_app_ge {A} : forall (x y : list A) q, length x <= q -> skipn q (x ++ y) = skipn (q - length x) y.
 Proof. induction x as [|a x IH]; intros y q H; cbn [app length]; [now rewrite Nat.sub_0_r|]. destruct q; [cbn in H; lia|]. cbn. apply IH. cbn in H. lia. Qed.
 
-Lemma pred_decision id an : pred_id_ok id -> Forall noquote_byte an ->
+Lemma pred_decision id an : plain_runes id -> Forall noquote_rune an ->
   let text := tl (map fst (pred_runes id an)) in
   index_of (zs s_literalType) text = None /\ exists p, index_of (zs s_anchor) text = Some p.
 Proof.
   intros Hid Han text. destruct marker_is as (m' & Em).
-  assert (Et : text = map bz id ++ 34%Z :: 64%Z :: 91%Z :: (map bz an ++ [93%Z])).
-  { subst text. unfold pred_runes. rewrite anchor_is. rewrite !map_app, !map_fst_ascii. reflexivity. }
-  assert (NA : Forall (fun z => z <> 34%Z) (map bz id)).
+  assert (Et : text = map fst id ++ 34%Z :: 64%Z :: 91%Z :: (map fst an ++ [93%Z])).
+  { subst text. unfold pred_runes. rewrite anchor_is. cbn [map tl]. rewrite !map_app, !map_fst_ascii. reflexivity. }
+  assert (NA : Forall (fun z => z <> 34%Z) (map fst id)).
   { apply Forall_map. eapply Forall_impl; [|exact Hid]. cbn. tauto. }
-  assert (NB : Forall (fun z => z <> 34%Z) (64%Z :: 91%Z :: (map bz an ++ [93%Z]))).
+  assert (NB : Forall (fun z => z <> 34%Z) (64%Z :: 91%Z :: (map fst an ++ [93%Z]))).
   { constructor; [lia|]. constructor; [lia|]. apply Forall_app. split; [|repeat constructor; lia].
-    apply Forall_map. eapply Forall_impl; [|exact Han]. unfold noquote_byte. cbn. tauto. }
+    apply Forall_map. exact Han. }
   (* a pattern starting with a quote can match inside text only at |id| *)
   assert (Only : forall pat q, is_prefix (34%Z :: pat) (skipn q text) = true -> q = length id).
-  { intros pat q H. rewrite Et in H.
-    destruct (Nat.lt_ge_cases q (length (map bz id))) as [L|L].
+  { intros pat q H. rewrite Et in H. unfold rw in *.
+    destruct (Nat.lt_ge_cases q (length (map fst id))) as [L|L].
     - exfalso. rewrite skipn_app_lt in H by lia.
-      destruct (skipn q (map bz id)) as [|z zs0] eqn:Es.
+      destruct (skipn q (map fst id)) as [|z zs0] eqn:Es.
       + apply (f_equal (@length Z)) in Es. rewrite skipn_length in Es. cbn in Es. lia.
       + assert (Hz : z <> 34%Z).
-        { assert (Hin : In z (skipn q (map bz id))) by (rewrite Es; now left).
-          rewrite Forall_forall in NA. apply NA. rewrite <- (firstn_skipn q (map bz id)). apply in_or_app. now right. }
+        { assert (Hin : In z (skipn q (map fst id))) by (rewrite Es; now left).
+          rewrite Forall_forall in NA. apply NA. rewrite <- (firstn_skipn q (map fst id)). apply in_or_app. now right. }
         cbn [app is_prefix] in H. destruct (Z.eqb_spec 34 z); [congruence|discriminate].
     - rewrite skipn_app_ge in H by lia. rewrite map_length in *.
-      destruct (q - length id) as [|d] eqn:Ed; [lia|].
+      destruct (q - length id) as [|d] eqn:Ed; [unfold rw in *; lia|].
       exfalso. cbn [skipn] in H. rewrite (is_prefix_no_quote pat _ d NB) in H. discriminate. }
   split.
   - apply index_of_none. intro q. rewrite Em. cbn [zs map]. change (bz x22) with 34%Z.
     destruct (is_prefix (34%Z :: bz x5e :: map bz m') (skipn q text)) eqn:E; [|reflexivity]. exfalso.
     rewrite (Only _ _ E) in E. rewrite Et in E.
-    rewrite skipn_app_ge in E by (rewrite map_length; lia). rewrite map_length, Nat.sub_diag in E. cbn in E. discriminate.
+    rewrite skipn_app_ge in E by (rewrite map_length; unfold rw; lia). rewrite map_length in E. unfold rw in E. rewrite Nat.sub_diag in E. cbn in E. discriminate.
   - assert (M : is_prefix (zs s_anchor) (skipn (length id) text) = true).
-    { rewrite Et, anchor_is. rewrite skipn_app_ge by (rewrite map_length; lia). rewrite map_length, Nat.sub_diag. reflexivity. }
+    { rewrite Et, anchor_is. rewrite skipn_app_ge by (rewrite map_length; unfold rw; lia). rewrite map_length. unfold rw. rewrite Nat.sub_diag. reflexivity. }
     destruct (index_of_complete _ _ _ M) as (p & Ep & Hp).
-    { rewrite Et. rewrite app_length, map_length. cbn. lia. }
+    { rewrite Et. rewrite app_length, map_length. cbn. unfold rw. lia. }
     exists p. exact Ep.
 Qed.
 
-Lemma pred_loop_body l : forall body tl0 ps, plain_body body ->
-  pred_loop U l ps (ascii_runes body ++ tl0) = pred_loop U l (ps + length body) tl0.
+Lemma pred_loop_body l : forall body tl0 ps, plain_runes body ->
+  pred_loop U l ps (body ++ tl0) = pred_loop U l (ps + wsum body) tl0.
 Proof.
   destruct rune_consts as (Q & B & _).
-  induction body as [|a body IH]; intros tl0 ps Hb; cbn [ascii_runes map app length]; [now rewrite Nat.add_0_r|].
-  inversion Hb as [|? ? (R & NQ & NB) Hb']; subst. cbn [pred_loop]. rewrite Q, B.
-  destruct (Z.eqb_spec (bz a) 92); [congruence|]. destruct (Z.eqb_spec (bz a) 34); [congruence|].
-  fold (ascii_runes body). rewrite IH by assumption. f_equal. lia.
+  induction body as [|[r w] body IH]; intros tl0 ps Hb; cbn [app wsum]; [now rewrite Nat.add_0_r|].
+  inversion Hb as [|? ? (NQ & NB) Hb']; subst. cbn [fst] in *. cbn [pred_loop]. rewrite Q, B.
+  destruct (Z.eqb_spec r 92); [congruence|]. destruct (Z.eqb_spec r 34); [congruence|].
+  rewrite IH by assumption. f_equal. lia.
 Qed.
 
 Lemma pred_loop_quote l mk tl0 ps : hd_error mk = Some x22 ->
@@ -255,79 +279,76 @@ Proof.
   cbn [ascii_runes map app pred_loop]. change (bz x22) with 34%Z. rewrite B, Q. reflexivity.
 Qed.
 
-Lemma bounds_plain l : forall an tl0 c ps, Forall anchor_byte an ->
-  bounds_loop l c ps (ascii_runes an ++ tl0) = bounds_loop l c (ps + length an) tl0.
+Lemma bounds_plain l : forall an tl0 c ps, Forall anchor_rune an ->
+  bounds_loop l c ps (an ++ tl0) = bounds_loop l c (ps + wsum an) tl0.
 Proof.
   destruct more_consts as (_ & _ & _ & Cm & Rs).
-  induction an as [|a an IH]; intros tl0 c ps Ha; cbn [ascii_runes map app length]; [now rewrite Nat.add_0_r|].
-  inversion Ha as [|? ? (R & N1 & N2 & N3) Ha']; subst. cbn [bounds_loop]. rewrite Cm, Rs.
-  destruct (Z.eqb_spec (bz a) 44); [congruence|]. destruct (Z.eqb_spec (bz a) 93); [congruence|].
-  fold (ascii_runes an). rewrite IH by assumption. f_equal. lia.
+  induction an as [|[r w] an IH]; intros tl0 c ps Ha; cbn [app wsum]; [now rewrite Nat.add_0_r|].
+  inversion Ha as [|? ? (N1 & N2 & N3) Ha']; subst. cbn [fst] in *. cbn [bounds_loop]. rewrite Cm, Rs.
+  destruct (Z.eqb_spec r 44); [congruence|]. destruct (Z.eqb_spec r 93); [congruence|].
+  rewrite IH by assumption. f_equal. lia.
 Qed.
 
-Lemma pred_first_steps id an l : pred_id_ok id -> Forall noquote_byte an -> rest l = pred_runes id an ->
+Lemma pred_first_steps id an l : plain_runes id -> Forall noquote_rune an -> rest l = pred_runes id an ->
   step U SToken l = ([], Some SPredOrLit, l) /\ step U SPredOrLit l = ([], Some SPredicate, l) /\
-  step U SPredicate l = bounds_loop l 0 (pos l + S (length id) + length s_anchor) (ascii_runes an ++ [(93%Z, 1)]).
+  step U SPredicate l = bounds_loop l 0 (pos l + S (wsum id) + length s_anchor) (an ++ [(93%Z, 1)]).
 Proof.
   intros Hid Han Hrest. split; [|split].
-  - apply (lex_token_quote l (ascii_runes id ++ ascii_runes s_anchor ++ ascii_runes an ++ [(93%Z, 1)])). exact Hrest.
+  - apply (lex_token_quote l (id ++ ascii_runes s_anchor ++ an ++ [(93%Z, 1)])). exact Hrest.
   - cbn [step]. unfold lex_pred_or_lit. rewrite Hrest. destruct (pred_decision id an Hid Han) as (E1 & p & E2).
     cbn zeta in E1, E2. rewrite E1, E2. reflexivity.
-  - cbn [step]. unfold lex_predicate. rewrite Hrest. unfold pred_runes. cbn [ascii_runes map app].
-    fold (ascii_runes id). rewrite pred_loop_body by exact Hid.
+  - cbn [step]. unfold lex_predicate. rewrite Hrest. unfold pred_runes.
+    rewrite pred_loop_body by exact Hid.
     rewrite pred_loop_quote by reflexivity. rewrite consume_self. f_equal. lia.
 Qed.
 
-Lemma pred_decode w : Forall (fun b => (bz b < 128)%Z) w -> decode_all w = ascii_runes w.
-Proof. intro H. rewrite <- (app_nil_r w) at 1. rewrite decode_all_ascii by assumption. cbn. apply app_nil_r. Qed.
+Lemma decode_pred id an : decode_all (x22 :: id ++ s_anchor ++ an ++ [x5d]) =
+  pred_runes (decode_all id) (decode_all an).
+Proof.
+  unfold pred_runes. rewrite decode_cons_ascii by reflexivity. change (bz x22) with 34%Z. f_equal.
+  rewrite anchor_is. cbn [app]. rewrite decode_mid by reflexivity. f_equal.
+  cbn [ascii_runes map app]. f_equal. rewrite !decode_cons_ascii by reflexivity. f_equal. f_equal.
+  rewrite decode_mid by reflexivity. reflexivity.
+Qed.
 
 Theorem printed_predicate : forall id an, pred_id_ok id -> Forall anchor_byte an ->
   let inp := x22 :: id ++ s_anchor ++ an ++ [x5d] in
   lex_with U inp = ([(ItemPredicate, 0, length inp); (ItemEOF, length inp, length inp)], true).
 Proof.
-  intros id an Hid Han inp. unfold lex_with, lex_runes. rewrite pred_decode.
-  2:{ subst inp. constructor; [reflexivity|]. apply Forall_app. split.
-      - eapply Forall_impl; [|exact Hid]. cbn. tauto.
-      - apply Forall_app. split; [repeat constructor|]. apply Forall_app. split; [|repeat constructor].
-        eapply Forall_impl; [|exact Han]. intros a0 [H0 _]. exact H0. }
-  assert (Er : ascii_runes inp = pred_runes id an).
-  { subst inp. unfold pred_runes. change (x22 :: id ++ s_anchor ++ an ++ [x5d]) with ((x22 :: id) ++ s_anchor ++ an ++ [x5d]).
-    rewrite !ascii_runes_app. reflexivity. }
-  rewrite Er. set (rs := pred_runes id an).
-  destruct (fuel_split rs 3 ltac:(lia)) as [f Ef]; [subst rs; unfold pred_runes; cbn; congruence|]. rewrite Ef. cbn [plus].
-  destruct (pred_first_steps id an (init_lx rs) Hid (anchor_noquote an Han) eq_refl) as (S1 & S2 & S3).
+  intros id an Hid Han inp. unfold lex_with, lex_runes. subst inp. rewrite decode_pred.
+  set (rs := pred_runes (decode_all id) (decode_all an)).
+  destruct (fuel_split rs 3 ltac:(lia)) as [f Ef]; [subst rs; unfold pred_runes; congruence|]. rewrite Ef. cbn [plus].
+  pose proof (anchor_bytes_runes an Han) as Har.
+  destruct (pred_first_steps (decode_all id) (decode_all an) (init_lx rs) (plain_body_runes id Hid) (anchor_noquote _ Har) eq_refl)
+    as (S1 & S2 & S3).
   rewrite run_S, S1, run_S, S2, run_S, S3. rewrite bounds_plain by assumption.
   destruct more_consts as (_ & _ & _ & Cm & Rs). cbn [bounds_loop]. rewrite Cm, Rs. cbn [Z.eqb Pos.eqb Nat.ltb Nat.leb Nat.eqb].
   unfold emit. cbn [init_lx start pos]. rewrite run_at_end. cbn [app].
-  subst inp. cbn [length]. rewrite !app_length. cbn [length]. repeat f_equal; lia.
+  rewrite !(wsum_decode_all _ _ (le_n _)).
+  cbn [length]. rewrite ?app_length. cbn [length]. repeat f_equal; lia.
 Qed.
 
 Theorem printed_bound : forall id a1 a2, pred_id_ok id -> Forall anchor_byte a1 -> Forall anchor_byte a2 ->
   let inp := x22 :: id ++ s_anchor ++ (a1 ++ x2c :: a2) ++ [x5d] in
   lex_with U inp = ([(ItemPredicateBound, 0, length inp); (ItemEOF, length inp, length inp)], true).
 Proof.
-  intros id a1 a2 Hid H1 H2 inp. unfold lex_with, lex_runes.
-  assert (Han : Forall noquote_byte (a1 ++ x2c :: a2)).
-  { apply Forall_app. split; [now apply anchor_noquote|]. constructor; [split; [reflexivity|discriminate]|now apply anchor_noquote]. }
-  rewrite pred_decode.
-  2:{ subst inp. constructor; [reflexivity|]. apply Forall_app. split.
-      - eapply Forall_impl; [|exact Hid]. cbn. tauto.
-      - apply Forall_app. split; [repeat constructor|]. apply Forall_app. split; [|repeat constructor].
-        eapply Forall_impl; [|exact Han]. intros a0 [H0 _]. exact H0. }
-  assert (Er : ascii_runes inp = pred_runes id (a1 ++ x2c :: a2)).
-  { subst inp. unfold pred_runes.
-    change (x22 :: id ++ s_anchor ++ (a1 ++ x2c :: a2) ++ [x5d]) with ((x22 :: id) ++ s_anchor ++ (a1 ++ x2c :: a2) ++ [x5d]).
-    rewrite !ascii_runes_app. reflexivity. }
-  rewrite Er. set (rs := pred_runes id (a1 ++ x2c :: a2)).
-  destruct (fuel_split rs 3 ltac:(lia)) as [f Ef]; [subst rs; unfold pred_runes; cbn; congruence|]. rewrite Ef. cbn [plus].
-  destruct (pred_first_steps id (a1 ++ x2c :: a2) (init_lx rs) Hid Han eq_refl) as (S1 & S2 & S3).
+  intros id a1 a2 Hid H1 H2 inp. unfold lex_with, lex_runes. subst inp. rewrite decode_pred.
+  assert (Ea : decode_all (a1 ++ x2c :: a2) = decode_all a1 ++ (44%Z, 1) :: decode_all a2) by (now rewrite decode_mid).
+  rewrite Ea. set (an := decode_all a1 ++ (44%Z, 1) :: decode_all a2).
+  pose proof (anchor_bytes_runes a1 H1) as R1. pose proof (anchor_bytes_runes a2 H2) as R2.
+  assert (Han : Forall noquote_rune an).
+  { subst an. apply Forall_app. split; [now apply anchor_noquote|]. constructor; [unfold noquote_rune; cbn; lia|now apply anchor_noquote]. }
+  set (rs := pred_runes (decode_all id) an).
+  destruct (fuel_split rs 3 ltac:(lia)) as [f Ef]; [subst rs; unfold pred_runes; congruence|]. rewrite Ef. cbn [plus].
+  destruct (pred_first_steps (decode_all id) an (init_lx rs) (plain_body_runes id Hid) Han eq_refl) as (S1 & S2 & S3).
   rewrite run_S, S1, run_S, S2, run_S, S3.
   destruct more_consts as (_ & _ & _ & Cm & Rs).
-  rewrite ascii_runes_app, <- app_assoc. rewrite bounds_plain by assumption.
-  cbn [ascii_runes map app bounds_loop]. change (bz x2c) with 44%Z. rewrite Cm, Rs. cbn [Z.eqb Pos.eqb].
-  fold (ascii_runes a2). rewrite bounds_plain by assumption. cbn [bounds_loop]. rewrite Cm, Rs. cbn [Z.eqb Pos.eqb Nat.ltb Nat.leb Nat.eqb].
+  subst an. rewrite <- app_assoc. rewrite bounds_plain by assumption.
+  cbn [app bounds_loop]. rewrite Cm, Rs. cbn [Z.eqb Pos.eqb].
+  rewrite bounds_plain by assumption. cbn [bounds_loop]. rewrite Cm, Rs. cbn [Z.eqb Pos.eqb Nat.ltb Nat.leb Nat.eqb].
   unfold emit. cbn [init_lx start pos]. rewrite run_at_end. cbn [app].
-  subst inp. cbn [length]. rewrite ?app_length. cbn [length]. rewrite ?app_length. cbn [length]. repeat f_equal; lia.
+  rewrite !(wsum_decode_all _ _ (le_n _)).
+  cbn [length]. rewrite ?app_length. cbn [length]. rewrite ?app_length. cbn [length]. repeat f_equal; lia.
 Qed.
 
 End Printed.
